@@ -40,7 +40,8 @@ HEnv(vars, par) == [h |-> "env", vars |-> vars, par |-> par]
 HFun(fn, env)   == [h |-> "fun", fn |-> fn, env |-> env]
 HArr(es)        == [h |-> "arr", es |-> es]
 HObj(ks, vs)    == [h |-> "obj", ks |-> ks, vs |-> vs]                 \* own properties in insertion order
-HErr(cls, msg, site) == [h |-> "err", cls |-> cls, msg |-> msg, site |-> site]
+HErr(cls, msg, site, rt) == [h |-> "err", cls |-> cls, msg |-> msg, site |-> site, rt |-> rt, infn |-> FALSE]
+                                  \* site: node of the last throw; rt: raised by the machine itself; infn: thrown inside a function
 ErrCtors == {"Error", "TypeError", "ReferenceError", "RangeError", "SyntaxError"}
 ArrMethods == {"forEach", "map", "push"}
 BuiltinNames == ErrCtors \cup {"log", "undefined"}
@@ -133,9 +134,31 @@ Alloc(st, recs) == [st EXCEPT !.heap = @ \o recs]              \* new addresses 
 \* an opaque deviation: the as-is behaviour from here on depends on interpreter internals
 Opaque(st, name) == HaltWith(Fire(st, name), [o |-> "opaque", dev |-> name])
 
-ThrowErr(st, cls, nid) == Cmp(Alloc(st, <<HErr(cls, "", nid)>>), CThrow(VRef(Len(st.heap) + 1)))
-RetOrThrow(st, r, nid) == IF r.t = "throwmark" THEN ThrowErr(st, "TypeError", nid) ELSE Ret(st, r)
+InFn(st) == \E j \in 1..Len(st.k) : st.k[j].f = "callret"
+ThrowErr(st, cls, nid) == Cmp(Alloc(st, <<HErr(cls, "", nid, TRUE)>>), CThrow(VRef(Len(st.heap) + 1)))
+\* as-is rules for the location properties of error objects (recorded findings):
+\*   Dev_NoRuntimeLoc  : errors raised by the engine itself carry no location of their own (None, or the location of an
+\*                       unrelated earlier throw statement that happens to precede them in the source map)
+\*   Dev_NoLocInFunctions : only the top-level code of a script has a source map; a throw inside a function sets nothing
+AsIsLoc(st, ov, r) ==
+  IF r.t # "loc" THEN [v |-> r, d |-> ""]
+  ELSE LET ho == st.heap[ov.r] IN
+       IF ho.rt /\ D(st, "Dev_NoRuntimeLoc") THEN [v |-> [t |-> "anyloc"], d |-> "Dev_NoRuntimeLoc"]
+       ELSE IF ~ho.rt /\ ho.infn /\ D(st, "Dev_NoLocInFunctions") THEN [v |-> [t |-> "hostnone"], d |-> "Dev_NoLocInFunctions"]
+       ELSE [v |-> r, d |-> ""]
+RetOrThrow(st, ov, r, nid) ==
+  IF r.t = "throwmark" THEN ThrowErr(st, "TypeError", nid)
+  ELSE LET q == AsIsLoc(st, ov, r) IN Ret(IF q.d = "" THEN st ELSE Fire(st, q.d), q.v)
 
+\* normal completion with value v of a loop / switch / labelled / try statement.
+\* Dev_CompletionTail (as-is): only expression statements, blocks and if statements in tail position produce the completion
+\* value of a script; every other statement completes with undefined, and a statement list yields its last statement's value.
+CmpN(st, v) == IF D(st, "Dev_CompletionTail") /\ v.t \notin {"undef", "empty"}
+               THEN Cmp(IF InFn(st) THEN st ELSE Fire(st, "Dev_CompletionTail"), CN(VUndef))
+               ELSE Cmp(st, CN(v))
+\* as-is: a name that ECMAScript binds before the script runs is still unbound (nothing is hoisted at top level)
+FireUnbound(st, x) == LET s1 == IF x \in st.hv /\ D(st, "Dev_NoGlobalVarHoist") THEN Fire(st, "Dev_NoGlobalVarHoist") ELSE st
+                      IN IF x \in st.hf /\ D(st, "Dev_NoFnHoist") THEN Fire(s1, "Dev_NoFnHoist") ELSE s1
 \* assignment to a declared variable (resolution along the environment chain)
 SetVar(st, x, v) ==
   LET a == LookupEnv(st.heap, st.env, x) IN
@@ -192,7 +215,7 @@ DoCall(st, fv, thisv, args, nid) ==
                             IN Ret([s1 EXCEPT !.log = Append(@, pv)], VUndef)
          [] fv.n \in ErrCtors -> LET mv == Arg(args, 1)
                                      msg == IF mv.t = "undef" THEN "" ELSE ToStr(mv)
-                                 IN Ret(Alloc(st, <<HErr(fv.n, msg, 0)>>), VRef(Len(st.heap) + 1))
+                                 IN Ret(Alloc(st, <<HErr(fv.n, msg, 0, FALSE)>>), VRef(Len(st.heap) + 1))
          [] fv.n = "push" -> IF thisv.t = "ref" /\ st.heap[thisv.r].h = "arr"
                              THEN Ret([st EXCEPT !.heap[thisv.r].es = Append(@, Arg(args, 1))], VInt(Len(st.heap[thisv.r].es) + 1))
                              ELSE Ret(st, Unsup)
@@ -235,24 +258,27 @@ IterNext(st) ==
   THEN LET it == fr.items[fr.idx + 1] IN
        IF it.t = "unsup" THEN Ret(st, Unsup)
        ELSE Ex(SetVar(Repl(st, [fr EXCEPT !.idx = @ + 1]), fr.w.x, it), fr.w.b)
-  ELSE Cmp(Pop(st), CN(fr.v))
+  ELSE CmpN(Pop(st), fr.v)
 \* completion c of the body of the loop-like frame fr (on top of st); after(s) continues with the next round
 BodyDone(st, fr, c, after(_)) ==
   LET v2 == IF c.v.t # "empty" THEN c.v ELSE fr.v IN
   IF c.c = "normal" \/ (c.c = "continue" /\ (c.lab = "" \/ c.lab \in fr.labs)) THEN after(Repl(st, [fr EXCEPT !.v = v2]))
-  ELSE IF c.c = "break" /\ c.lab = "" THEN Cmp(Pop(st), CN(v2))
+  ELSE IF c.c = "break" /\ c.lab = "" THEN CmpN(Pop(st), v2)
   ELSE Cmp(Pop(st), UpdateEmpty(c, fr.v))
 
 \* ---------------- switch -----------------------------------------------------------------------------------
 \* frames: "swtest" [w, dv, idx] while a case test is evaluated, "swbody" [w, idx, v] while clause idx runs
 RECURSIVE SwNextTest(_, _, _, _)
-SwRun(st, w, idx, v) == IF idx > Len(w.cs) THEN Cmp(st, CN(v))
+SwRun(st, w, idx, v) == IF idx > Len(w.cs) THEN CmpN(st, v)
                         ELSE Ex(Push(st, [f |-> "swbody", w |-> w, idx |-> idx, v |-> v]), SBlock(w.cs[idx].b))
 SwNextTest(st, w, dv, idx) ==                              \* st without a switch frame; idx = first clause to consider
   IF idx > Len(w.cs)
   THEN LET DS == {j \in 1..Len(w.cs) : w.cs[j].t.e = "none"} IN
        IF DS = {} THEN Cmp(st, CN(VUndef)) ELSE SwRun(st, w, CHOOSE j \in DS : TRUE, VUndef)
-  ELSE IF w.cs[idx].t.e = "none" THEN SwNextTest(st, w, dv, idx + 1)
+  ELSE IF w.cs[idx].t.e = "none"
+       THEN (IF D(st, "Dev_SwitchDefaultOrder")            \* as-is: reaching the default clause jumps to it; later tests are never tried
+             THEN SwRun(IF \E j \in (idx + 1)..Len(w.cs) : w.cs[j].t.e # "none" THEN Fire(st, "Dev_SwitchDefaultOrder") ELSE st, w, idx, VUndef)
+             ELSE SwNextTest(st, w, dv, idx + 1))
   ELSE Ev(Push(st, [f |-> "swtest", w |-> w, dv |-> dv, idx |-> idx]), w.cs[idx].t)
 
 \* ---------------- statements ----------------------------------------------------------------------------------
@@ -271,7 +297,7 @@ StepS(st, s, labs) ==
   CASE s.s = "expr" -> Ev(Push(st, [f |-> "exprstmt"]), s.x)
     [] s.s = "var" -> VarDecls(st, s.ds)
     [] s.s = "fdecl" -> IF D(st, "Dev_NoFnHoist")           \* as-is: the declaration is evaluated in place
-                        THEN Cmp(SetVar(Alloc(st, <<HFun(FdeclAsFun(s), st.env)>>), s.name, VRef(Len(st.heap) + 1)), CN(Empty))
+                        THEN Cmp(SetVar(Alloc(Fire(st, "Dev_NoFnHoist"), <<HFun(FdeclAsFun(s), st.env)>>), s.name, VRef(Len(st.heap) + 1)), CN(Empty))
                         ELSE Cmp(st, CN(Empty))
     [] s.s = "empty" -> Cmp(st, CN(Empty))
     [] s.s = "block" -> IF s.b = <<>> THEN Cmp(st, CN(Empty))
@@ -305,10 +331,10 @@ StepE(st, x) ==
     [] x.e = "var" -> LET a == LookupEnv(st.heap, st.env, x.x) IN
                       IF a # 0 THEN Ret(st, st.heap[a].vars[x.x])
                       ELSE IF x.x \in BuiltinNames THEN Ret(st, Builtin(x.x))
-                      ELSE ThrowErr(st, "ReferenceError", x.nid)
+                      ELSE ThrowErr(FireUnbound(st, x.x), "ReferenceError", x.nid)
     [] x.e = "bin" -> Ev(Push(st, [f |-> "binl", o |-> x.o, r |-> x.r]), x.l)
     [] x.e = "un" -> IF x.o = "typeof" /\ x.x.e = "var" /\ LookupEnv(st.heap, st.env, x.x.x) = 0 /\ x.x.x \notin BuiltinNames
-                     THEN Ret(st, VStr("undefined"))
+                     THEN Ret(FireUnbound(st, x.x.x), VStr("undefined"))
                      ELSE Ev(Push(st, [f |-> "un", o |-> x.o]), x.x)
     [] x.e = "logic" -> Ev(Push(st, [f |-> "logic", o |-> x.o, r |-> x.r]), x.l)
     [] x.e = "cond" -> Ev(Push(st, [f |-> "cond", a |-> x.a, b |-> x.b]), x.c)
@@ -354,18 +380,23 @@ StepV(st, v) ==
     [] fr.f = "if" -> IF Truthy(v) THEN Ex(Push(s0, [f |-> "ifdone"]), fr.a)
                       ELSE IF fr.b.s = "none" THEN Cmp(s0, CN(VUndef)) ELSE Ex(Push(s0, [f |-> "ifdone"]), fr.b)
     [] fr.f = "loop" -> IF fr.ph = "upd" THEN LoopTest(st)
-                        ELSE IF Truthy(v) THEN LoopBody(st) ELSE Cmp(s0, CN(fr.v))            \* ph = "test"
+                        ELSE IF Truthy(v) THEN LoopBody(st) ELSE CmpN(s0, fr.v)               \* ph = "test"
     [] fr.f = "iterobj" -> LET items == IF fr.w.s = "forin" THEN KeysOf(st.heap, v) ELSE ElemsOf(st.heap, v)
                            IN IterNext(Push(s0, [f |-> "iter", w |-> fr.w, labs |-> fr.labs, items |-> items, idx |-> 0, v |-> VUndef]))
     [] fr.f = "swdisc" -> SwNextTest(s0, fr.w, v, 1)
     [] fr.f = "swtest" -> IF StrictEq(fr.dv, v) THEN SwRun(s0, fr.w, fr.idx, VUndef) ELSE SwNextTest(s0, fr.w, fr.dv, fr.idx + 1)
     [] fr.f = "ret" -> Cmp(s0, CRet(v))
-    [] fr.f = "throw" -> Cmp(IF v.t = "ref" /\ s0.heap[v.r].h = "err" THEN [s0 EXCEPT !.heap[v.r].site = fr.nid] ELSE s0, CThrow(v))
+    [] fr.f = "throw" -> Cmp(IF v.t = "ref" /\ s0.heap[v.r].h = "err"
+                             THEN [s0 EXCEPT !.heap[v.r].site = fr.nid, !.heap[v.r].rt = FALSE, !.heap[v.r].infn = InFn(s0)] ELSE s0, CThrow(v))
     [] fr.f = "binl" -> Ev(Push(s0, [f |-> "binr", o |-> fr.o, lv |-> v]), fr.r)
     [] fr.f = "binr" ->
          IF fr.o = "instanceof"
          THEN (IF v.t = "nat" /\ v.n \in ErrCtors
-               THEN Ret(s0, VBool(fr.lv.t = "ref" /\ s0.heap[fr.lv.r].h = "err" /\ (v.n = "Error" \/ s0.heap[fr.lv.r].cls = v.n)))
+               THEN LET iserr == fr.lv.t = "ref" /\ s0.heap[fr.lv.r].h = "err"
+                        same == iserr /\ s0.heap[fr.lv.r].cls = v.n
+                    IN IF iserr /\ ~same /\ v.n = "Error" /\ D(s0, "Dev_ErrorHierarchy")          \* as-is: no prototype chain between the constructors
+                       THEN Ret(Fire(s0, "Dev_ErrorHierarchy"), VBool(FALSE))
+                       ELSE Ret(s0, VBool(same \/ (iserr /\ v.n = "Error")))
                ELSE Ret(s0, Unsup))
          ELSE Ret(s0, BinOp(fr.o, fr.lv, v))
     [] fr.f = "un" -> (CASE fr.o = "!" -> Ret(s0, VBool(~Truthy(v)))
@@ -378,9 +409,9 @@ StepV(st, v) ==
     [] fr.f = "casg" -> LET nv == BinOp(fr.o, fr.old, v) IN IF nv.t = "unsup" THEN Ret(s0, Unsup) ELSE Ret(SetVar(s0, fr.x, nv), nv)
     [] fr.f = "comma" -> IF fr.rest = <<>> THEN Ret(s0, v) ELSE Ev(Push(s0, [fr EXCEPT !.rest = Tail(@)]), Head(fr.rest))
     \* member read  o[p] / o.n
-    [] fr.f = "memo" -> IF fr.x.dot THEN RetOrThrow(s0, GetProp(s0.heap, v, VStr(fr.x.p.s)), fr.x.nid)
+    [] fr.f = "memo" -> IF fr.x.dot THEN RetOrThrow(s0, v, GetProp(s0.heap, v, VStr(fr.x.p.s)), fr.x.nid)
                         ELSE Ev(Push(s0, [f |-> "memp", ov |-> v, nid |-> fr.x.nid]), fr.x.p)
-    [] fr.f = "memp" -> RetOrThrow(s0, GetProp(s0.heap, fr.ov, v), fr.nid)
+    [] fr.f = "memp" -> RetOrThrow(s0, fr.ov, GetProp(s0.heap, fr.ov, v), fr.nid)
     \* member assignment  o[p] = r
     [] fr.f = "masgo" -> IF fr.x.m.dot THEN Ev(Push(s0, [f |-> "masgr", ov |-> v, pv |-> VStr(fr.x.m.p.s), nid |-> fr.x.m.nid]), fr.x.r)
                          ELSE Ev(Push(s0, [f |-> "masgp", ov |-> v, x |-> fr.x]), fr.x.m.p)
@@ -422,9 +453,13 @@ StepC(st, c) ==
   ELSE LET fr == Top(st)  s0 == Pop(st) IN
   CASE fr.f = "seq" ->
          IF c.c = "normal"
-         THEN LET v2 == IF c.v.t # "empty" THEN c.v ELSE fr.v IN
-              IF fr.rest = <<>> THEN Cmp(s0, CN(v2))
-              ELSE Ex(Repl(st, [fr EXCEPT !.rest = Tail(@), !.v = v2]), Head(fr.rest))
+         THEN LET vr == IF c.v.t # "empty" THEN c.v ELSE fr.v
+                  va == IF c.v.t = "empty" THEN VUndef ELSE c.v                  \* as-is: the last statement's value only
+                  asis == D(st, "Dev_CompletionTail")
+                  v2 == IF asis THEN va ELSE vr
+                  s1 == IF asis /\ va # (IF vr.t = "empty" THEN VUndef ELSE vr) /\ ~InFn(st) THEN Fire(st, "Dev_CompletionTail") ELSE st
+              IN IF fr.rest = <<>> THEN Cmp(Pop(s1), CN(v2))
+                 ELSE Ex(Repl(s1, [fr EXCEPT !.rest = Tail(@), !.v = v2]), Head(fr.rest))
          ELSE Cmp(s0, UpdateEmpty(c, fr.v))
     [] fr.f = "ifdone" -> Cmp(s0, UpdateEmpty(c, VUndef))
     [] fr.f = "loop" -> IF fr.ph = "body" THEN BodyDone(st, fr, c, LoopAfterBody)
@@ -433,9 +468,9 @@ StepC(st, c) ==
     [] fr.f = "iter" -> BodyDone(st, fr, c, IterNext)
     [] fr.f = "swbody" -> LET v2 == IF c.v.t # "empty" THEN c.v ELSE fr.v IN
                           IF c.c = "normal" THEN SwRun(s0, fr.w, fr.idx + 1, v2)
-                          ELSE IF c.c = "break" /\ c.lab = "" THEN Cmp(s0, CN(v2))
+                          ELSE IF c.c = "break" /\ c.lab = "" THEN CmpN(s0, v2)
                           ELSE Cmp(s0, UpdateEmpty(c, fr.v))
-    [] fr.f = "label" -> IF c.c = "break" /\ c.lab = fr.l THEN Cmp(s0, CN(c.v)) ELSE Cmp(s0, c)
+    [] fr.f = "label" -> IF (c.c = "break" /\ c.lab = fr.l) \/ c.c = "normal" THEN CmpN(s0, c.v) ELSE Cmp(s0, c)
     [] fr.f = "callret" -> LET s1 == [s0 EXCEPT !.env = fr.env] IN
                            IF c.c = "return" THEN Ret(s1, c.v)
                            ELSE IF c.c = "normal" THEN Ret(s1, VUndef)
@@ -444,15 +479,24 @@ StepC(st, c) ==
     [] fr.f = "scope" -> Cmp([s0 EXCEPT !.env = fr.env], c)
     [] fr.f = "try" ->
          IF fr.ph = "block" /\ c.c = "throw" /\ fr.t.c.s # "none"
-         THEN LET a == Len(st.heap) + 1 IN                                        \* catch: fresh scope for the parameter
+         THEN IF D(st, "Dev_CatchParamScope")      \* as-is: the parameter is a variable of the enclosing function (or of the script)
+              THEN LET s1 == IF fr.t.cv \in DOMAIN st.heap[st.env].vars THEN Fire(s0, "Dev_CatchParamScope") ELSE s0
+                   IN Ex(Push([s1 EXCEPT !.heap[st.env].vars = (fr.t.cv :> c.v) @@ @], [fr EXCEPT !.ph = "catch"]), fr.t.c)
+              ELSE LET a == Len(st.heap) + 1 IN                                   \* catch: fresh scope for the parameter
               Ex(Push(Push(Alloc([s0 EXCEPT !.env = a], <<HEnv((fr.t.cv :> c.v), st.env)>>),
                            [fr EXCEPT !.ph = "catch"]), [f |-> "scope", env |-> st.env]), fr.t.c)
          ELSE IF fr.t.f.s # "none"
          THEN Ex(Push([s0 EXCEPT !.hist[fr.id].fin = @ + 1], [f |-> "fin", pend |-> UpdateEmpty(c, VUndef), id |-> fr.id]), fr.t.f)
-         ELSE Cmp(s0, UpdateEmpty(c, VUndef))
+         ELSE IF c.c = "normal" THEN CmpN(s0, UpdateEmpty(c, VUndef).v) ELSE Cmp(s0, UpdateEmpty(c, VUndef))
     [] fr.f = "fin" -> LET s1 == [s0 EXCEPT !.hist[fr.id].done = TRUE] IN
-                       IF c.c = "normal" THEN Cmp(s1, fr.pend) ELSE Cmp(s1, UpdateEmpty(c, VUndef))
-    [] OTHER -> Cmp(s0, c)                        \* abrupt completion passes through expression / native frames
+                       IF c.c = "normal" THEN (IF fr.pend.c = "normal" THEN CmpN(s1, fr.pend.v) ELSE Cmp(s1, fr.pend))
+                       ELSE Cmp(s1, UpdateEmpty(c, VUndef))
+    [] fr.f = "nat" ->                             \* a throw leaves script code that a native (forEach, map) is running
+         IF c.c = "throw" /\ D(st, "Dev_CallbackThrow")
+            /\ \E j \in 1..Len(s0.k) : s0.k[j].f = "try" /\ (s0.k[j].ph = "block" \/ s0.k[j].t.f.s # "none")
+         THEN Opaque(st, "Dev_CallbackThrow")      \* as-is: the native's loop resumes, the handler runs later with whatever is on the operand stack
+         ELSE Cmp(s0, c)
+    [] OTHER -> Cmp(s0, c)                        \* abrupt completion passes through expression frames
 
 \* ---------------- the machine -----------------------------------------------------------------------------------------
 Step(st, maxsteps) ==
@@ -475,7 +519,8 @@ InitState(prog, devs) ==
       vars == [x \in FS \cup VS |-> IF x \in FS THEN VRef(1 + LastIdx(fds, LAMBDA d : d.name = x)) ELSE VUndef]
       heap == <<HEnv(vars, 0)>> \o (IF hoistF THEN [j \in 1..Len(fds) |-> HFun(FdeclAsFun(fds[j]), 1)] ELSE <<>>)
   IN [ctl |-> [m |-> "S", s |-> SBlock(body), labs |-> {}], env |-> 1, k |-> <<>>, heap |-> heap, log |-> <<>>,
-      steps |-> 0, hist |-> <<>>, devs |-> devs, fired |-> {}, flag |-> "", out |-> [o |-> "none"]]
+      steps |-> 0, hist |-> <<>>, devs |-> devs, fired |-> {}, flag |-> "", out |-> [o |-> "none"],
+      hv |-> VarNamesL(body), hf |-> {fds[j].name : j \in 1..Len(fds)}]
 
 \* ---------------- invariants of the machine (checked on every state of every run) ------------------------------------------
 ValueFrames == {"exprstmt", "vardecl", "if", "loop", "iterobj", "swdisc", "swtest", "ret", "throw", "binl", "binr", "un",
